@@ -40,7 +40,7 @@ COMPONENTS = {"real": ["pel.peltool.peltool.main() and everything it imports, in
 ASSUMPTIONS = ["durable = handed to the OS by a successful flush/close (no fsync modelling; the property says written and closed)",
                "single-threaded peltool; faults are returned at Python-level I/O calls",
                "in-process main() stands in for a real process; exit-time flushing is modelled by the harness"]
-PROBES = ["pre_existing_output:partial", "fault:error@close", "fault:crash_after@remove", "fault:error@stdout_flush", "role:filtered", "role:junk",
+PROBES = ["restart_after_fault", "pre_existing_output:partial", "fault:error@close", "fault:crash_after@remove", "fault:error@stdout_flush", "role:filtered", "role:junk",
           "fault:short@close", "fault:error@open_out"]
 
 
@@ -61,7 +61,9 @@ def gen_plan(rng, tier, run):
             "double": (tier == "thorough" and rng.random() < 0.3) or (tier == "quick" and rng.random() < 0.08),
             "files": [], "plugins": {}, "bmc": rng.random() < 0.15,
             # the process may have been started with stdout closed (`peltool ... >&-`)
-            "stdout_closed": mode == "file" and rng.random() < 0.08}
+            "stdout_closed": mode == "file" and rng.random() < 0.08,
+            # crash-restart histories: after every faulted execution the same command is run again
+            "restart": mode == "json" and rng.random() < 0.25}
     if rng.random() < 0.25:
         plan["opts"].append("-P")
     n = rng.randint(1, 4) if mode == "json" else 1
@@ -379,6 +381,21 @@ def execute(plan):
             violations += v
             h.update(res.digest.encode())
             h.update(json.dumps(sorted(snap.items())).encode())
+            if plan.get("restart") and res.fired and plan["mode"] == "json":
+                # crash / failure, then the operator simply runs the same command again on whatever was left behind
+                # (partial outputs included): the invariant must still hold afterwards
+                res2 = w.run(argv_of(plan), order=plan["order"], faults=None, file_bufsize=plan["bufsize"],
+                             stdout_bufsize=plan["stdout_bufsize"])
+                snap2 = w.snapshot()
+                evals += 1
+                bump("restart_after_fault")
+                v2, _, pat2 = check_state(plan, w, originals, ref_outputs, ref_stdout, res2, snap2, faults, remove_pos)
+                for x in v2:
+                    x["key"] += ":after-restart"
+                    x["detail"] = "after a restart (same command, no faults) following " + x["detail"]
+                violations += v2
+                traces.add("restart|%s|%s|%s->%s" % (plan["bufsize"], fk, pat, pat2))
+                h.update(res2.digest.encode())
             if len(violations) > 40:
                 break
     # keep one violation per key
